@@ -17,6 +17,8 @@ def runStr : RunRes → String
   | .typeErr => "typeErr"
   | .panic => "panic"
   | .steps => "steps"
+  | .stuck => "stuck"
+  | .merge => "merge"
 
 /-- case: the build case of C20 plus, per node op, "dyn" (dynamic type the lambda returns),
     per branch op "pick" (end node the condition returns), and "runs": the dynamic types of
@@ -36,7 +38,7 @@ def handle (c : Json) : JE Json := do
   let lastOk := outs.getLast? == some Outcome.ok && (cs.ops.getLast?.map Op.isCompile) == some true
   let runs : List String :=
     match rs.getLast?, lastOk with
-    | some r, true => runsIn.map fun d => runStr (runGraph cs.im r code (r.nodes.length + 12) d)
+    | some r, true => runsIn.map fun d => runStr (runGraph cs.im r code (if r.maxSteps = 0 then r.nodes.length + 2 else r.maxSteps) d)
     | _, _ => []
   pure <| Json.mkObj [
     ("out", J.mkStrs (outs.map outcomeStr)),
